@@ -1,5 +1,6 @@
 /- Cases for C15: the same files in several orders. -/
 import SlicecVerif.Drv.Prog
+import SlicecVerif.Model.Pipeline
 
 namespace Slicec.Drv
 
@@ -33,6 +34,31 @@ def crossFileErrors : List (String × List SFile) :=
     ("shadow", [sFile "A" [.struct [] [] false "X" []], sFile "A::B" [.struct [] [] false "X" [], .struct [] [] false "U" [fld "x" (tr "X")]],
                 sFile "A::B::C" [.struct [] [] false "V" [fld "x" (tr "X"), fld "y" (tr "::A::X")]]]) ]
 
+/-- multi-file programs for the three checks of the complete pipeline (`validateFull`, Model/Pipeline.lean): inheritance loops and
+    alias loops through anonymous types that run through several files and modules, bases / underlying types that are not
+    names, and acyclic look-alikes; the verdict is the model's -/
+def crossFileFull : List (String × List SFile) :=
+  let ib := fun (n : String) (bs : List String) => Def.iface [] [] n (bs.map tr) []
+  let sq := fun (n : String) => TRef.mk [] (.seq (tr n)) false
+  let dc := fun (n : String) => TRef.mk [] (.dict (.mk [] (.prim .int32) false) (tr n)) false
+  let rs := fun (a b : String) => TRef.mk [] (.result (tr a) (tr b)) false
+  [ ("inherit-loop-2", [sFile "M" [ib "A" ["B"]], sFile "M" [ib "B" ["A"]]]),
+    ("inherit-loop-3-modules", [sFile "M" [ib "A" ["N::B"]], sFile "N" [ib "B" ["::M::K::C"]], sFile "M::K" [ib "C" ["A"]]]),
+    ("inherit-loop-and-user", [sFile "M" [ib "I" ["I"]], sFile "M" [ib "K" ["I"]], sFile "N" [ib "L" ["M::K"]]]),
+    ("inherit-loop-and-cycle", [sFile "M" [ib "A" ["B"]], sFile "M" [ib "B" ["A"]], sFile "M" [.struct [] [] false "S" [fld "s" (sq "S")]]]),
+    ("inherit-diamond", [sFile "M" [ib "A" []], sFile "M" [ib "B" ["A"]], sFile "N" [ib "C" ["M::A"]], sFile "M" [ib "D" ["B", "N::C"]]]),
+    ("alias-anon-loop-2", [sFile "M" [.alias [] [] "A" (sq "B")], sFile "M" [.alias [] [] "B" (dc "A")], sFile "M" [.struct [] [] false "S" [fld "a" (tr "A")]]]),
+    ("alias-anon-loop-modules", [sFile "M" [.alias [] [] "A" (sq "N::B")], sFile "N" [.alias [] [] "B" (rs "M::A" "M::A")]]),
+    ("alias-anon-loop-link", [sFile "M" [.alias [] [] "A" (sq "B")], sFile "M" [.alias [] [] "B" (tr "C")], sFile "M" [.alias [] [] "C" (tr "A")]]),
+    ("alias-anon-loop-and-missing", [sFile "M" [.alias [] [] "A" (sq "A")], sFile "M" [.struct [] [] false "S" [fld "a" (tr "Nope")]]]),
+    ("alias-anon-diamond", [sFile "M" [.alias [] [] "N" (.mk [] (.seq (.mk [] (.prim .string) false)) false)], sFile "M" [.alias [] [] "P" (rs "N" "N")],
+                            sFile "N" [.alias [] [] "Q" (dc "M::P"), .struct [] [] false "S" [fld "q" (tr "Q"), fld "p" (tr "M::P")]]]),
+    ("base-not-a-name", [sFile "M" [ib "J" []], sFile "M" [.iface [] [] "I" [tr "J", .mk [] (.prim .bool) false] []]]),
+    ("base-not-a-name-no-module", [sFile "M" [ib "J" []], { fileAttrs := [], module := none, defs := [.iface [] [] "I" [.mk [] (.seq (tr "J")) false] []] }]),
+    ("underlying-anonymous", [sFile "M" [.enum [] [] false false "E" (some (.mk [] (.seq (.mk [] (.prim .bool) false)) false))
+                                [{ doc := [], attrs := [], name := "A", fields := none, value := none }]],
+                              sFile "M" [.struct [] [] false "S" [fld "e" (tr "E")]]]) ]
+
 end P15
 
 open P15 in
@@ -41,6 +67,9 @@ def genC15 (tier : Tier) (seed : Nat) (o : Out) : IO Unit := do
   for (name, fs) in crossFileErrors do
     let idx := List.range fs.length
     o.line (permCase ("cross-" ++ name) "-" (fs.map txt) (permsOf idx) (if name == "shadow" then "accepted" else "rejected"))
+  for (name, fs) in crossFileFull do
+    o.line (permCase ("full-" ++ name) "-" (fs.map txt) (permsOf (List.range fs.length))
+      (if (validateFull fs).isEmpty then "accepted" else "rejected"))
   -- the key clash between a nested module and a definition (D-15a, repaired in /repo: reported as a redefinition in every order)
   o.line (permCase "d15a-key-clash" "-"
     [txt (sFile "A::B" [.struct [] [] false "X" []]), txt (sFile "A" [.struct [] [] false "B" [], .struct [] [] false "U" [fld "b" (tr "B")]])]
